@@ -201,7 +201,7 @@ def judge(case):
 
 
 def shards(tier):
-    k, n = (16, 6) if tier == "quick" else (64, 50)
+    k, n = (16, 12) if tier == "quick" else (64, 150)
     return [{"id": i, "n": n} for i in range(k)]
 
 
